@@ -36,7 +36,9 @@ def real_verdict(loop):
     try:
         res = dt.can_loop_be_parallelised(loop, test_all_variables=True)
         msgs = sorted((int(m.code), m.var_names[0].lower()) for m in dt.get_all_messages())
-        return ("ok", bool(res), msgs)
+        res1 = dt.can_loop_be_parallelised(loop)          # default mode: stops at the first refused variable
+        msgs1 = [(int(m.code), m.var_names[0].lower()) for m in dt.get_all_messages()]
+        return ("ok", bool(res), msgs, bool(res1), msgs1)
     except _Timeout:
         _timeouts[0] += 1
         return ("timeout",)
@@ -45,6 +47,35 @@ def real_verdict(loop):
     finally:
         signal.setitimer(signal.ITIMER_REAL, 0)
         signal.signal(signal.SIGALRM, old)
+
+
+def real_partitions(loop, names, cap=6):
+    """the real `_partition` on up to `cap` (write, other) access pairs of the loop's arrays:
+    [(lvars ids, write subscripts, other subscripts, [[sorted var ids], [positions]] ...)]"""
+    from psyclone.core import VariablesAccessInfo
+    from psyclone.psyir.nodes import Loop
+    from psyclone.psyir.tools import DependencyTools
+    va = VariablesAccessInfo(loop)
+    loop_vars = [lp.variable.name for lp in loop.walk(Loop)]
+    lv = [names.id(v) for v in loop_vars]
+    out = []
+    for sig in va.all_signatures:
+        info = va[sig]
+        if str(sig) in loop_vars or not info.is_array():
+            continue
+        for w in info.all_write_accesses:
+            for o in info.all_accesses:
+                if len(out) >= cap:
+                    return out
+                try:
+                    ws = [minif.export_expr(w.component_indices[i], names) for i in w.component_indices.iterate()]
+                    os_ = [minif.export_expr(o.component_indices[i], names) for i in o.component_indices.iterate()]
+                except minif.Unsupported:
+                    continue
+                parts = DependencyTools._partition(w.component_indices, o.component_indices, loop_vars)
+                real = [[sorted(names.id(v) for v in vs), [ix[1] for ix in subs]] for vs, subs in parts]
+                out.append((lv, ws, os_, real))
+    return out
 
 
 def conflicts(traces, exempt, arrays=()):
@@ -76,7 +107,7 @@ def conflicts(traces, exempt, arrays=()):
 def model_and_traces(exports):
     lines = []
     for ex in exports:
-        lines.append(sx(["par", ex["loop"], ex["dnames"]]))
+        lines.append(sx(["par", ex["loop"], ex["dnames"], ex["order"]]))
         lines.append(sx(["trace", ex["prefix"], ex["loop"], CAP]))
     out = common.driver("C08", lines)
     res = []
@@ -86,7 +117,7 @@ def model_and_traces(exports):
             raise common.Infra(f"C08 driver: {p[:80]} / {t[:80]}")
         par = parse_sx(p)
         res.append({"par": bool(par[0]), "frag": bool(par[1]), "msgs": sorted((m[0], m[1]) for m in par[2]),
-                    "priv": list(par[3]), "traces": parse_sx(t)})
+                    "priv": list(par[3]), "first": [(m[0], m[1]) for m in par[4]], "traces": parse_sx(t)})
     return res
 
 
@@ -113,12 +144,15 @@ def judge(src, ex, real, mod):
         out["refused"] = real[1]
         return out
     mm = sorted((c, ids.get(x, str(x))) for c, x in mod["msgs"])
-    out["agree"] = (real[1] == mod["par"]) and (list(real[2]) == mm)
+    m1 = [(c, ids.get(x, str(x))) for c, x in mod["first"]]
+    out["model"]["first"] = [list(x) for x in m1]
+    out["agree"] = ((real[1] == mod["par"]) and (list(real[2]) == mm)
+                    and (real[3] == mod["par"]) and ([tuple(x) for x in real[4]] == m1))
     if real[1]:
         cf = conflicts(mod["traces"], set(mod["priv"]), set(c08_gen.BodyInfo(ex["loop"]).subs))
         if cf:
             a, b, loc, kind = cf
-            classes = c08_gen.classify(ex["loop"], loc[0]) if mod["par"] else []
+            classes = c08_gen.classify(ex["loop"], loc[0])      # labels; attribution also needs the model to agree
             out["failure"] = {"kind": "loop-carried-dependence", "iterations": [a, b],
                               "location": [ids.get(loc[0], loc[0]), loc[1], loc[2]], "conflict": kind,
                               "observed": "reported parallelisable",
@@ -151,6 +185,8 @@ def run(chk):
                        "so the real analysis runs at least one pairwise array test or one scalar test: all judged cases "
                        "are non-trivial except loops the real analysis refuses with an exception; distinct by source text")
     chk.assumptions += [
+        "model in FIXED mode: fixes/C08-dvar-loop, C08-integer-division, C08-symbolic-coefficient, C08-stale-subscript, "
+        "C08-inner-variable-subscript (on a tree without them the check reports the failing inputs of these classes)",
         "MiniF semantics (integer stores, unbounded arrays) stands for Fortran on the generated programs",
         "exemption = C08.privScalar (statically: first access on every path is an unconditional write; a DO statement "
         "writes its own variable unconditionally)",
@@ -177,13 +213,30 @@ def run(chk):
     dist = {"parallelisable": 0, "not": 0, "refused": 0, "timeout": 0, "out_of_fragment": 0, "conflicts_known": 0}
     flav, codes = {}, {}
     prepared = []
+    part_cases = []
     for name, src, fl in sources:
         try:
             ex, loop = c08_gen.export_case(src)
         except minif.Unsupported:
             continue
         prepared.append((name, src, fl, ex, real_verdict(loop)))
+        try:
+            for lv, ws, os_, real in real_partitions(loop, ex["namesobj"]):
+                part_cases.append((src, lv, ws, os_, real))
+        except Exception as err:     # the real _partition raised: a disagreement with the total model
+            chk.correspondence_broken("_partition raised " + type(err).__name__, {"source": src}, None, str(err))
     models = model_and_traces([p[3] for p in prepared])
+    # `_partition` (literal while loop, fuel len+1) vs the real static method on (write, other) access pairs
+    pouts = common.driver("C08", [sx(["partw", lv, ws, os_]) for _, lv, ws, os_, _ in part_cases])
+    nbad = 0
+    for (src, lv, ws, os_, real), po in zip(part_cases, pouts):
+        modelp = None if not po.startswith("(") else [[sorted(q[0]), list(q[1])] for q in parse_sx(po)]
+        if modelp != real:
+            nbad += 1
+            if nbad <= 3:
+                chk.correspondence_broken("_partition differs from C08.partitionW", {"source": src, "subs": [ws, os_]},
+                                          po, real)
+    chk.cov["partition_pairs_compared"] = len(part_cases)
     known = {e["id"]: e for e in common.known_findings("C08")}
     reported = set()
     for (name, src, fl, ex, real), mod in zip(prepared, models):
@@ -216,7 +269,7 @@ def run(chk):
                 dist["conflicts_known"] += 1
             else:
                 key = (fail["conflict"], tuple(fail["classes"]))
-                if key not in reported and len(reported) < 4:
+                if key not in reported and len(reported) < 6:
                     reported.add(key)
                     chk.violation(dict(fail, source=src, model=res["model"], real=res["real"]))
         if compared and not res["agree"]:
